@@ -117,3 +117,112 @@ Proof.
   - apply bounded_bind; [|intros; constructor]. apply rle_decode_bounded; lia.
   - apply set_range_rd_bounded; [right; lia|]. intros; constructor.
 Qed.
+
+(* ---------------------------------------------------------------- a syntactic guard *)
+(* Written from the datagram's own fields, in the order the handler tests them: the datagram is dropped
+   before any field it does not contain is read, or everything its index block claims was received.
+   (Sufficient for sn_within, not necessary: an RLE stream that stops early or a SetRange that clamps the
+   copy may leave the unreceived part of a claimed block unread.) *)
+Definition sn_guard (whole_block : N -> N -> bool) (d : list N) (st : handlers) : bool :=
+  let n := len d in
+  let H := SN_HEADER_SIZE in
+  if n <=? SN_HEADER_SIZE then true
+  else if negb (g16be d SN_OFF_type =? SN_COMPRESSED_DMX_PACKET) then true
+  else if n <? H + SN_OFF_indexBlock + 2 then false           (* indexBlock[0] not received *)
+  else
+    let index_block := g16le d (H + SN_OFF_indexBlock) in
+    if index_block <? SN_MAGIC_INDEX_OFFSET then true
+    else if n <? H + SN_OFF_indexBlock + 4 then false         (* indexBlock[1] not received *)
+    else
+      let net_slot := g16le d (H + SN_OFF_netSlot) in
+      let ib1 := g16le d (H + SN_OFF_indexBlock + 2) in
+      if (ib1 <? index_block + 1) || (net_slot =? 0) then true
+      else
+        let enc_len := ib1 - index_block in
+        let data_offset := index_block - SN_MAGIC_INDEX_OFFSET in
+        (* what the code computes as received_data_size: packet_size + 1261 *)
+        if (n - H) + (SN_COMPRESSED_DATA_LENGTH - SN_PTR_SIZE) <? data_offset + enc_len then true
+        else if g16le d (H + SN_OFF_slotSize) =? 0 then true
+        else match find_h st ((net_slot - 1) / DMX_UNIVERSE_SIZE) with
+             | None => true
+             | Some _ => whole_block (H + SN_OFF_data + data_offset + enc_len) n
+             end.
+(* the whole claimed block was received *)
+Definition sn_syn : list N -> handlers -> bool := sn_guard (fun e n => e <=? n).
+(* only: every HEADER field the handler reads was received (necessary for sn_within) *)
+Definition sn_hdr : list N -> handlers -> bool := sn_guard (fun _ _ => true).
+
+Lemma sn_received_eq psz : psz < 4294967296 - 1261 ->
+  u32 (usub64 psz (usub64 SN_PTR_SIZE SN_COMPRESSED_DATA_LENGTH)) = psz + (SN_COMPRESSED_DATA_LENGTH - SN_PTR_SIZE).
+Proof.
+  intros H. unfold u32, usub64, u64, SN_PTR_SIZE, SN_COMPRESSED_DATA_LENGTH.
+  change (8 mod 18446744073709551616) with 8. change (1269 mod 18446744073709551616) with 1269.
+  change ((8 + 18446744073709551616 - 1269) mod 18446744073709551616) with 18446744073709550355.
+  change (18446744073709550355 mod 18446744073709551616) with 18446744073709550355.
+  replace (psz + 18446744073709551616 - 18446744073709550355) with (psz + 1261) by lia.
+  rewrite (N.mod_small (psz + 1261)) by lia. rewrite N.mod_small by lia. lia.
+Qed.
+
+Lemma sn_syn_within d st :
+  bytes_ok d = true -> len d <= SN_PACKET_SIZE -> sn_syn d st = true -> sn_within d st = true.
+Proof.
+  intros Hb Hn Hs. unfold sn_within, shownet_handle, sn_tail, sn_syn, sn_guard in *.
+  rewrite sn_received_eq by (unfold SN_PACKET_SIZE in Hn; lia).
+  pose proof (g16le_lt d (SN_HEADER_SIZE + SN_OFF_indexBlock) Hb) as B0.
+  pose proof (g16le_lt d (SN_HEADER_SIZE + SN_OFF_indexBlock + 2) Hb) as B1.
+  unfold SN_CHDR, SN_PACKET_SIZE, SN_HEADER_SIZE, SN_OFF_type, SN_COMPRESSED_SIZE, SN_COMPRESSED_DATA_LENGTH,
+    SN_OFF_indexBlock, SN_OFF_netSlot, SN_OFF_slotSize, SN_OFF_data, SN_MAGIC_INDEX_OFFSET, SN_PTR_SIZE in *.
+  cbv zeta in *.
+  destruct (len d <=? 6) eqn:E1; [reflexivity|].
+  rewrite run_rd16be by lia.
+  destruct (negb (g16be d 0 =? SN_COMPRESSED_DMX_PACKET)) eqn:E2; [reflexivity|].
+  destruct (len d <? 6 + 16 + 2) eqn:E3; [discriminate|].
+  rewrite run_rd16le by lia.
+  destruct (g16le d (6 + 16) <? 11) eqn:E4; [reflexivity|].
+  destruct (len d <? 6 + 16 + 4) eqn:E5; [discriminate|].
+  rewrite run_rd16le by lia. rewrite run_rd16le by lia.
+  destruct ((g16le d (6 + 16 + 2) <? g16le d (6 + 16) + 1) || (g16le d (6 + 0) =? 0)) eqn:E6; [reflexivity|].
+  destruct (len d - 6 + (1269 - 8) <? g16le d (6 + 16) - 11 + (g16le d (6 + 16 + 2) - g16le d (6 + 16))) eqn:E7;
+    [reflexivity|].
+  rewrite run_rd16le by lia.
+  destruct (g16le d (6 + 8) =? 0) eqn:E8; [reflexivity|].
+  destruct (find_h st ((g16le d (6 + 0) - 1) / DMX_UNIVERSE_SIZE)) as [b|] eqn:E9; [|reflexivity].
+  apply N.leb_le in Hs.
+  apply (completes_bounded (len d)); [|assumption|lia].
+  destruct (negb (g16le d (6 + 8) =? g16le d (6 + 16 + 2) - g16le d (6 + 16))).
+  - apply bounded_bind; [|intros; constructor]. apply rle_decode_bounded; lia.
+  - apply set_range_rd_bounded; [right; lia|]. intros; constructor.
+Qed.
+
+Lemma run_rd16le_short {A} d o (k : N -> prog A) : len d <= o + 1 -> completes (run d (rd16le o k)) = false.
+Proof.
+  intros H. unfold rd16le. cbn [run].
+  destruct (rd d o) as [a|] eqn:Ea; [|reflexivity]. cbn [run].
+  destruct (rd d (o + 1)) as [b|] eqn:Eb; [|reflexivity].
+  apply rd_some_lt in Eb. lia.
+Qed.
+
+(* conversely: whenever the handler completes on the datagram alone, every header field it read was received *)
+Lemma sn_within_hdr d st :
+  len d <= SN_PACKET_SIZE -> sn_within d st = true -> sn_hdr d st = true.
+Proof.
+  intros Hn Hs. unfold sn_within, shownet_handle, sn_tail, sn_hdr, sn_guard in *.
+  rewrite sn_received_eq in Hs by (unfold SN_PACKET_SIZE in Hn; lia).
+  unfold SN_CHDR, SN_PACKET_SIZE, SN_HEADER_SIZE, SN_OFF_type, SN_COMPRESSED_SIZE, SN_COMPRESSED_DATA_LENGTH,
+    SN_OFF_indexBlock, SN_OFF_netSlot, SN_OFF_slotSize, SN_OFF_data, SN_MAGIC_INDEX_OFFSET, SN_PTR_SIZE in *.
+  cbv zeta in *.
+  destruct (len d <=? 6) eqn:E1; [reflexivity|].
+  rewrite run_rd16be in Hs by lia.
+  destruct (negb (g16be d 0 =? SN_COMPRESSED_DMX_PACKET)) eqn:E2; [reflexivity|].
+  destruct (len d <? 6 + 16 + 2) eqn:E3.
+  { rewrite run_rd16le_short in Hs by lia. discriminate. }
+  rewrite run_rd16le in Hs by lia.
+  destruct (g16le d (6 + 16) <? 11) eqn:E4; [reflexivity|].
+  destruct (len d <? 6 + 16 + 4) eqn:E5.
+  { rewrite run_rd16le in Hs by lia. rewrite run_rd16le_short in Hs by lia. discriminate. }
+  destruct ((g16le d (6 + 16 + 2) <? g16le d (6 + 16) + 1) || (g16le d (6 + 0) =? 0)); [reflexivity|].
+  destruct (len d - 6 + (1269 - 8) <? g16le d (6 + 16) - 11 + (g16le d (6 + 16 + 2) - g16le d (6 + 16)));
+    [reflexivity|].
+  destruct (g16le d (6 + 8) =? 0); [reflexivity|].
+  destruct (find_h st ((g16le d (6 + 0) - 1) / DMX_UNIVERSE_SIZE)); reflexivity.
+Qed.
